@@ -345,7 +345,7 @@ func init() {
 }
 
 func runC13(c *Ctx) (int, error) {
-	cases, gr, err := genParseCases(c, "Gen_Inject", "BaseWellFormed InjectionsIllFormed GraphVerdicts NamesWellFormed Export", "  Parts = {\"base\", \"inject\", \"sites\", \"graph\", \"names\"}\n")
+	cases, gr, err := genParseCases(c, "Gen_Inject", "BaseWellFormed InjectionsIllFormed GraphVerdicts NamesWellFormed DupVerdicts Export", "  Parts = {\"base\", \"inject\", \"sites\", \"graph\", \"names\", \"impdup\"}\n")
 	if err != nil {
 		return 2, err
 	}
@@ -354,10 +354,42 @@ func runC13(c *Ctx) (int, error) {
 	for i, cs := range cases {
 		var x struct {
 			Class, Site, Expect string
+			Dep                 []string
 		}
 		_ = json.Unmarshal(cs.Extra, &x)
 		if x.Expect == "reject" {
 			nontriv++
+		}
+		if cs.Part == "impdup" {
+			// two files on disk, generated in combined import mode
+			dir := filepath.Join(c.Work, fmt.Sprintf("impdup%d", i))
+			_ = os.MkdirAll(dir, 0o755)
+			text := ast.Render(cs.Tokens, ast.Layouts[0])
+			_ = os.WriteFile(filepath.Join(dir, "dep.bop"), []byte(ast.Render(x.Dep, ast.Layouts[0])), 0o644)
+			_ = os.WriteFile(filepath.Join(dir, "root.bop"), []byte(text), 0o644)
+			var f bebop.File
+			rres, rmsg := guarded(20*time.Second, func() error {
+				fh, err := os.Open(filepath.Join(dir, "root.bop"))
+				if err != nil {
+					return err
+				}
+				defer fh.Close()
+				f, _, err = bebop.ReadFile(fh)
+				return err
+			})
+			gres, gmsg := "", ""
+			if rres == "nil" {
+				gres, gmsg = guarded(20*time.Second, func() error {
+					return f.Generate(&bytes.Buffer{}, bebop.GenerateSettings{PackageName: "x", ImportGenerationMode: bebop.ImportGenerationModeCombined})
+				})
+			}
+			crash := ""
+			if rres == "panic" || rres == "timeout" || gres == "panic" || gres == "timeout" {
+				crash = "ReadFile/Generate: " + rres + " " + gres
+			}
+			events = append(events, map[string]interface{}{"ev": "inject", "cid": i + 1, "layout": "std", "accepted": rres == "nil" && gres == "nil",
+				"rres": rres, "gres": gres, "msg": rmsg + gmsg, "crash": crash, "text": text + "\n--- dep.bop ---\n" + ast.Render(x.Dep, ast.Layouts[0])})
+			continue
 		}
 		for li, lay := range ast.Layouts {
 			if li != 0 && !(cs.Part == "inject" && li == 4) {
